@@ -20,13 +20,13 @@ CLAIMS = {
     technique="Lean 4 theorems (induction over flag bytes) + dops-stream correspondence",
     ref="7/C16"),
   "C03": dict(
-    text="Lean 4: for EVERY well-formed file of the frozen grammar (any complete prefix tree, overlapping ranges, any legal divisor, runs on any range, jumpstart 0..24, the legacy flag combinations, zero-count chunk, n <= order, any delta order) the operational model of the decompressor returns exactly the numbers the file encodes: whole-file (simple_decompress) and chunk API (header, chunk_metadata, chunk_body), for every Huffman lookup between the eager specification matcher and any prefix-safe lazier one (LazyOf); proved by refinement of the operational model to the specification decoder + the file-level round trip. Tie: random syntax trees encoded by the Lean spec encoder and decoded by the real library in three modes; the 8 shipped assets through both decoders.",
-    note="The real 6-bit-stride table is modelled by matchStride and compared on every dops line; that matchStride satisfies LazyOf is not yet proved (eagerMatcher is). Depth-31 trees (2 GiB validation table) are not generated.",
+    text="Lean 4: for EVERY well-formed file of the frozen grammar (any complete prefix tree, overlapping ranges, any legal divisor, runs on any range, jumpstart 0..24, the legacy flag combinations, zero-count chunk, n <= order, any delta order) the operational model of the decompressor returns exactly the numbers the file encodes: whole-file (simple_decompress) and chunk API (header, chunk_metadata, chunk_body), for every Huffman lookup that is sound w.r.t. the specification matcher, fails only for lack of data and answers once 5 more bits follow (WeakLazyOf) — proved to hold of matchStride, the position-aware model of the real 6-bit-stride table (which is provably NOT prefix-safe: more data can turn an answer back into insufficient) — so the theorems are instantiated for the real lookup model; proved by refinement of the operational model to the specification decoder + the file-level round trip. Tie: random syntax trees encoded by the Lean spec encoder and decoded by the real library in three modes; the 8 shipped assets through both decoders.",
+    note="matchStride is tied to HuffmanTable::search_with_reader/read_prefix_table_idx by the dops correspondence (partial batches and bit positions compared on every line). Depth-31 trees (2 GiB validation table) are not generated.",
     technique="Lean 4 refinement proof (operational model -> spec decoder) + AST-generator correspondence",
     ref="7/C03"),
   "C04": dict(
     text="Lean 4: for every well-formed file, every limit >= 1 and every LazyOf lookup, draining the operational iterator over the complete file yields exactly [flags] ++ per chunk (metadata :: the chunk's numbers split into consecutive batches of `limit`) ++ [footer], then none forever, terminated; corollaries: every batch non-empty and <= limit, a chunk's batches concatenate to its numbers, the whole stream equals whole-file decompression; exact also for delta orders and chunks with n <= order. Proof: unit-level refinement (prefix-safe, sound, eager with 5 bits of slack), drain/resume lemma, batch characterisation incl. padding and body-size check, a position invariant and a decreasing measure. Tie: complete files (sparse/run-length, dense, delta, multi-chunk, GCD, legacy assets incl. the zero-count file) iterated with limits 1,2,29,30,31,100,n-1,n,n+1,1e5 and random on the implementation and on the model, compared token by token.",
-    note="as C03: matchStride's LazyOf membership is by correspondence only.",
+    note="as C03.",
     technique="Lean 4 refinement proof of the iterator state machine + dops-stream correspondence",
     ref="7/C04"),
   "C05": dict(
@@ -35,7 +35,7 @@ CLAIMS = {
     technique="Lean 4 refinement proof over write/drain/free schedules + dops-stream correspondence",
     ref="7/C05"),
   "C06": dict(
-    text="Lean 4: the specification decoder is prefix-safe (Safe for every parser of the format, incl. fuel monotonicity), hence every strict prefix (bit-granular) of a well-formed file decodes to `insufficient`; by refinement the operational simple_decompress on every strict byte prefix answers InsufficientData — never ok, never another kind — with the state unchanged, for every LazyOf lookup. (At non-byte cuts the model answers insufficient-or-corrupt; Write::write delivers whole bytes.) Tie: every truncation length of real files of every dtype on the implementation and on the model.",
+    text="Lean 4: the specification decoder is prefix-safe (Safe for every parser of the format, incl. fuel monotonicity), hence every strict prefix (bit-granular) of a well-formed file decodes to `insufficient`; by refinement the operational simple_decompress on every strict byte prefix answers InsufficientData — never ok, never another kind — with the state unchanged, for every WeakLazyOf lookup (instantiated for the real stride-table model). (At non-byte cuts the model answers insufficient-or-corrupt; Write::write delivers whole bytes.) Tie: every truncation length of real files of every dtype on the implementation and on the model.",
     note="as C03.",
     technique="Lean 4 prefix-safety invariant of the parser monad + refinement + exhaustive truncation sweep",
     ref="7/C06"),
